@@ -211,14 +211,14 @@ def judge_parseval(case):
     for i in range(case["n_all"]):
         tot = float(np.sum(Sy[i, i, :].real) * df)
         j.check(abs(tot - msq[i]) <= 1e-9 * msq[i], "parseval-exact", lambda: f"channel {i}: integral {tot!r} vs windowed segment mean square {msq[i]!r}")
-    if nseg >= 32:
+    if nseg >= 32 and case["nxseg"] >= 64:  # short segments: the per-segment mean removal takes a sizeable part of a coloured record's power
         Z = Y - Y.mean(axis=1, keepdims=True)
         for i in range(case["n_all"]):
             tot = float(np.sum(Sy[i, i, :].real) * df)
             rec = float(np.mean(Z[i] ** 2))
             j.check(abs(tot - rec) <= 0.25 * rec, "parseval-record", lambda: f"channel {i}: integral {tot!r} vs record mean square {rec!r}")
     else:
-        j.skip("parseval-record:<32 segments")
+        j.skip("parseval-record:<32 segments or nxseg<64")
     return j
 
 
@@ -315,7 +315,7 @@ SUBS = [
     Sub("welch", judge_welch, record_case(methods=("per",)), quick=200, thorough=5000,
         rule="'per' equals an independent Hann/one-sided/density Welch estimate without detrending at lines >= 2 (1e-9 relative to auto levels)"),
     Sub("parseval", judge_parseval, record_case(methods=("per",), max_seg=40, nxmax=512), quick=150, thorough=4000,
-        rule="sum Sy_ii*df equals the windowed mean square of the mean-removed segments exactly; >= 32 segments: record mean square within 25 %"),
+        rule="sum Sy_ii*df equals the windowed mean square of the mean-removed segments exactly; >= 32 segments of >= 64 samples: record mean square within 25 %"),
     Sub("gain_delay", judge_delay, delay_case(), quick=150, thorough=4000,
         rule="reference = g*x(t-d): Sy[x,ref]/Sy[x,x] = g*exp(-2 pi i f d/fs); per 5 % every interior line, cor 30 % median; opposite conjugation rejected"),
     Sub("sinusoid", judge_sinus, sinus_case(), quick=200, thorough=5000,
